@@ -772,7 +772,9 @@ def c03_flags(case, outcome=None):
             m = seq[i]
             if m['kind'] == 'AddField':
                 added[(uids[i], m['field']['name'])] = {
-                    'col': bool(m['field'].get('db_column')), 'renamed': False}
+                    'col': bool(m['field'].get('db_column') or
+                                (m['field']['kind'] == 'ManyToMany' and
+                                 m['field'].get('db_table'))), 'renamed': False}
             elif m['kind'] == 'ChangeField' and (uids[i], m['name']) in added:
                 if m['attrs'].get('db_column'):
                     added[(uids[i], m['name'])]['col'] = True
@@ -800,19 +802,29 @@ def c03_flags(case, outcome=None):
         for u, d in per.items():
             if d['del'] and d['vac'] & d['occ']:
                 flag(u, 'delete_name_reuse')
-    # an indexed column is renamed away and its name taken by a new indexed field
+    # a column is renamed inside a batch and the same batch (a) takes the vacated field /
+    # column name for a new field, or (b) changes unique / db_index / db_column of the renamed
+    # field: DatabaseState and the merged rebuild do not follow the rename
     for b in _batches(case):
-        vacated = {}
+        renamed = {}        # uid -> [(old name, new name)]
         for i in b:
             m = seq[i]
             if m['kind'] == 'RenameField':
                 mm_ = S.get_model(trail[i], m['app'], m['model'])
                 f_ = S.get_field(mm_, m['old']) if mm_ else None
-                if f_ is not None and (f_['db_index'] or f_['kind'] in ('ForeignKey',)):
-                    vacated[(uids[i], m['old'])] = True
-            if m['kind'] == 'AddField' and (uids[i], m['field']['name']) in vacated and \
-                    (m['field']['db_index'] or m['field']['kind'] in ('ForeignKey',)):
-                flag(uids[i], 'indexed_name_reuse')
+                if f_ is not None and f_['kind'] != 'ManyToMany':
+                    renamed.setdefault(uids[i], []).append((m['old'], m['new']))
+        for i in b:
+            m = seq[i]
+            pairs = renamed.get(uids[i]) or []
+            if not pairs:
+                continue
+            if m['kind'] == 'AddField' and any(m['field']['name'] == o for o, _n in pairs):
+                flag(uids[i], 'rename_stale_state')
+            if m['kind'] == 'ChangeField' and \
+                    any(m['name'] in (o, n_) for o, n_ in pairs) and \
+                    set(m['attrs']) & {'unique', 'db_index', 'db_column'}:
+                flag(uids[i], 'rename_stale_state')
     # AddField folded with a later RenameField of the same field: the optimiser rewrites the
     # AddField definition in place (F-C03-1); the Evolver's second pass then meets a
     # RenameField whose source no longer exists
@@ -1006,17 +1018,35 @@ def add_field_db_column_survives_rename(case, outcome, atoms):
     (without db_column): the folded AddField keeps db_column=X although the
     rename resets the column to the default for the new name."""
     return _explain_by_flag('add_rename_dbcolumn', case, outcome, atoms,
-                            exc_types=(), kinds=('column', 'index', 'fk'))
+                            exc_types=(), kinds=('column', 'index', 'fk', 'table'),
+                            any_table_atoms=True)
 
 
 @explainer
-def indexed_name_reused_inside_batch(case, outcome, atoms):
-    """Inside one batch the DatabaseState still lists the index of a column that
-    an earlier RenameField of the batch renamed away (the index is named after
-    the old column); an AddField that takes the vacated name with an index of
-    its own then collides: DatabaseStateError 'index ... already exists'."""
-    return _explain_by_flag('indexed_name_reuse', case, outcome, atoms,
-                            exc_types=('DatabaseStateError',), kinds=())
+def rename_not_followed_inside_batch(case, outcome, atoms):
+    """Inside one batch neither the DatabaseState nor the merged table rebuild
+    follows a column rename: operations of the same batch that take the vacated
+    field/column name for a new field, or that change unique / db_index /
+    db_column of the renamed field, are rejected (DatabaseStateError 'index ...
+    already exists', AssertionError in change_column_attr_unique, 'duplicate
+    column name'), although one at a time they succeed.  Only those rejections
+    are accounted for, not differing results."""
+    flags, _t = c03_flags(case, outcome)
+    if not any('rename_stale_state' in fl for fl in flags.values()):
+        return atoms
+    out = []
+    for a in atoms:
+        if a[0] in ('b_rejected', 'e_rejected'):
+            msg = str(a[3]) if len(a) > 3 else ''
+            if a[1] == 'DatabaseStateError' and 'already exists' in msg:
+                continue
+            if a[1] == 'AssertionError' and 'change_column_attr_unique' in str(a[2]):
+                continue
+            if a[1] in ('OperationalError', 'EvolutionExecutionError') and \
+                    'duplicate column name' in msg:
+                continue
+        out.append(a)
+    return out
 
 
 # ---------------------------------------------------------------------------
